@@ -833,10 +833,87 @@ pub fn cases(tier: &str) -> Vec<Value> {
     }
     out.push(json!({"engine":"enet","check":"c07","kind":"in_addr"}));
     out.extend(crate::checks::episode::cases("c07", tier == "thorough"));
+    // connections abandoned before a complete query, then well-formed queries
+    for (kind, n) in [("fin-empty", 1100u64), ("fin-half", 1100), ("fin-1octet", 300), ("rst-empty", 300)] {
+        out.push(json!({"engine":"enet","check":"c07","kind":"abandoned","abandon":kind,"n": if tier == "thorough" { 4200 } else { n }}));
+    }
     out
 }
 
-fn run_uptime(case: &Value) -> CaseResult {
+/// TCP connections that end before a complete query was sent (a port scan, a health check, a
+/// client that died): n of them, of one kind, then well-formed TCP queries -- each must get its
+/// one reply.  Kinds: closed at once; closed after one octet of the length prefix; closed after the
+/// prefix and half of the message; reset (SO_LINGER 0) at once.
+pub fn run_abandoned(case: &Value) -> CaseResult {
+    let spec = RigSpec { listeners: vec!["::1".into()], n_upstreams: 1, yaml: BASE_YAML.into() };
+    let mut rig = match Rig::start(&spec) {
+        Ok(r) => r,
+        Err(e) => return CaseResult::machinery(e),
+    };
+    let n = case["n"].as_u64().unwrap_or(0);
+    let kind = case["abandon"].as_str().unwrap_or("fin-empty");
+    let mut res = CaseResult::ok(format!("abandoned:{kind}"));
+    let cip: IpAddr = "::1".parse().unwrap();
+    let r = json!({"rcode":0,"an":[0],"ns":[],"ar":[],"compress":true,"opt":true});
+    let good = |rig: &mut Rig, i: u16, res: &mut CaseResult, after: u64| {
+        let q = json!({"name":format!("good{i}.example"),"type":1,"class":1,"edns":"plain","flags":"rd","transport":"tcp"});
+        let what = |detail: String| Violation::new("exactly-one-reply", format!("after {after} TCP connections that were abandoned before a complete query ({kind}), a well-formed TCP query {detail}"), case.clone()).sig("transport", "tcp").sig("replies", "0").sig("cause", "abandoned-connections");
+        match crate::checks::c03::exchange(rig, &q, &r, 0x4700 + i, cip, 0) {
+            Ok(ex) if ex.client_reply.is_some() => {}
+            Ok(_) => res.violations.push(what("received no reply".into())),
+            Err(e) => res.violations.push(what(format!("was not served: {e}"))),
+        }
+    };
+    good(&mut rig, 0, &mut res, 0);
+    let (_qm, qb) = crate::checks::c03::build_query(&json!({"name":"never.example","type":1,"class":1,"edns":"plain","flags":"rd","transport":"tcp"}), 0x4777);
+    let mut frame = (qb.len() as u16).to_be_bytes().to_vec();
+    frame.extend_from_slice(&qb);
+    for i in 0..n {
+        let mut c = match TcpClient::connect(Some(cip), rig.listen_addr(0)) {
+            Ok(c) => c,
+            Err(e) => {
+                let _ = rig.stop();
+                return CaseResult::machinery(format!("abandoned connection {i}: {e}"));
+            }
+        };
+        match kind {
+            "fin-1octet" => {
+                let _ = c.conn.send_raw(&frame[..1]);
+            }
+            "fin-half" => {
+                let _ = c.conn.send_raw(&frame[..2 + qb.len() / 2]);
+            }
+            "rst-empty" => unsafe {
+                let l = libc::linger { l_onoff: 1, l_linger: 0 };
+                libc::setsockopt(std::os::fd::AsRawFd::as_raw_fd(&c.conn.stream), libc::SOL_SOCKET, libc::SO_LINGER, &l as *const _ as *const libc::c_void, std::mem::size_of::<libc::linger>() as u32);
+            },
+            _ => {}
+        }
+        rig.pump(2);
+        drop(c);
+        rig.pump(2);
+        // a good query now and then, so that the first failure names a number
+        if res.violations.is_empty() && (i + 1) % 256 == 0 {
+            good(&mut rig, 1 + (i / 256) as u16, &mut res, i + 1);
+        }
+        if !res.violations.is_empty() {
+            break;
+        }
+    }
+    if res.violations.is_empty() {
+        for j in 0..3 {
+            good(&mut rig, 100 + j, &mut res, n);
+        }
+    }
+    let ps = rig.stop();
+    if let Some(p) = ps.first() {
+        res.violations.push(Violation::new("exactly-one-reply", format!("service task panicked: {} at {}", p.msg, panics::short_loc(&p.loc)), case.clone()).sig("panic_loc", panics::short_loc(&p.loc)));
+    }
+    res.stats = json!({"abandoned_connections": n});
+    res
+}
+
+pub fn run_uptime(case: &Value) -> CaseResult {
     let spec = RigSpec { listeners: vec!["::1".into()], n_upstreams: 1, yaml: BASE_YAML.into() };
     let mut rig = match Rig::start(&spec) {
         Ok(r) => r,
@@ -1034,6 +1111,7 @@ fn run_episode(case: &Value) -> CaseResult {
 pub fn run_case(case: &Value) -> CaseResult {
     match case["kind"].as_str() {
         Some("episode") => return run_episode(case),
+        Some("abandoned") => return run_abandoned(case),
         Some("family") => return run_family(case),
         Some("big") => return run_big(case),
         Some("uptime") => return run_uptime(case),
